@@ -111,6 +111,15 @@ func gen(tier string) []proto.Item {
 				items = append(items, proto.Item{Scn: s, Class: fmt.Sprintf("%s/no-send-delay/dest-%d", v, d)})
 			}
 		}
+		// a send call that takes longer than the configured delay (the socket waited for buffer space, 15ms) and then
+		// succeeds: the k-th, or every one; the probes on the wire are still at least the delay apart
+		for _, k := range []int{1, 2, 3, 0} {
+			for _, d := range []int{3, 0} {
+				s := proto.Scn{Variant: v, First: 1, Last: 4, Dest: d, IPIDBase: 1000, EchoBase: 50, TimeoutMs: 300, DelayMs: 10}
+				s.Faults = []simnet.Fault{{Op: "WriteTo", K: k, Class: "stall"}}
+				items = append(items, proto.Item{Scn: s, Class: fmt.Sprintf("%s/slow-send-call-%d/dest-%d", v, k, d)})
+			}
+		}
 		// non-initial state: the same configuration as second and third run of the process
 		s := proto.Scn{Variant: v, First: 1, Last: 4, Dest: 3, IPIDBase: 65530, EchoBase: 65533, TimeoutMs: 300, DelayMs: 10}
 		s2 := s
